@@ -20,16 +20,19 @@ Print Assumptions C02_growth_loop.
 
 (* What the loop computes: "the longest match obtained by repeatedly re-evaluating the alternatives
    with the previous result substituted for the recursive call".  For ANY body, key, mark and any
-   sequence of results r 0 (the primed failure), r 1, ..., r n with end positions m 0 < ... < m n:
+   sequence of results r 0 (the primed failure), r 1, ..., r n with end positions m 0 <= m 1 < ... < m n
+   (the FIRST result counts even if it consumes nothing -- a rule that can match the empty string; after it every
+   round must get further: fix [see DESIGN 12.4] of the loop, which used to drop such a first result):
    if the body, run at the mark with the k-th result as the cached seed, yields the (k+1)-th
    (k < n), and with the n-th as seed fails or does not get further, then the loop -- given more
    than n units of fuel -- returns exactly r n and leaves the cursor at m n. *)
 Theorem C02_growth_loop_computes_the_iteration_limit :
   forall key mark body (r : nat -> value) (m : nat -> nat) n,
   (forall k st, k < n -> seeded key r m k st -> pos st = mark ->
-     exists st', body st = (Ok (r (S k)), st') /\ pos st' = m (S k) /\ truthy (r (S k)) = true /\ m k < m (S k)) ->
+     exists st', body st = (Ok (r (S k)), st') /\ pos st' = m (S k) /\ truthy (r (S k)) = true /\
+                 (m k < m (S k) \/ truthy (r k) = false)) ->
   (forall st, seeded key r m n st -> pos st = mark ->
-     exists v st', body st = (Ok v, st') /\ (truthy v = false \/ pos st' <= m n)) ->
+     exists v st', body st = (Ok v, st') /\ (truthy v = false \/ (truthy (r n) = true /\ pos st' <= m n))) ->
   forall fuel st, n < fuel -> seeded key r m 0 st ->
   exists st', grow fuel key mark body (r 0) (m 0) st = (Ok (r n), st') /\ pos st' = m n.
 Proof.
@@ -44,9 +47,10 @@ Theorem C02_decorator_returns_and_records_the_limit :
   forall toks name body (r : nat -> value) (m : nat -> nat) n st fuel,
   r 0 = VNone -> m 0 = pos st ->
   (forall k st', k < n -> seeded (pos st, name, None) r m k st' -> pos st' = pos st ->
-     exists st'', body st' = (Ok (r (S k)), st'') /\ pos st'' = m (S k) /\ truthy (r (S k)) = true /\ m k < m (S k)) ->
+     exists st'', body st' = (Ok (r (S k)), st'') /\ pos st'' = m (S k) /\ truthy (r (S k)) = true /\
+                  (m k < m (S k) \/ truthy (r k) = false)) ->
   (forall st', seeded (pos st, name, None) r m n st' -> pos st' = pos st ->
-     exists v st'', body st' = (Ok v, st'') /\ (truthy v = false \/ pos st'' <= m n)) ->
+     exists v st'', body st' = (Ok v, st'') /\ (truthy v = false \/ (truthy (r n) = true /\ pos st'' <= m n))) ->
   cache_find (pos st, name, None) (cache st) = None -> n < fuel ->
   exists st', memoize_left_rec toks false fuel name body st = (Ok (r n), st')
               /\ pos st' = (if truthy (r n) then m n else pos st)
@@ -63,11 +67,14 @@ Theorem C02_growth_terminates :
   forall (L : nat) key mark body,
   (forall st, fst (body st) <> OutOfFuel) ->
   (forall st v st', body st = (Ok v, st') -> pos st' <= L) ->
-  forall fuel lastresult lastmark st, L - lastmark < fuel ->
+  (forall st v st', body st = (Ok v, st') -> truthy v = true -> pos st <= pos st') ->
+  forall fuel lastresult lastmark st, (truthy lastresult = false -> lastmark <= mark) ->
+  S (L - lastmark) < fuel ->
   fst (grow fuel key mark body lastresult lastmark st) <> OutOfFuel.
 Proof.
-  intros L key mark body H1 H2 fuel lastresult lastmark st Hf.
-  exact (grow_terminates L key mark body H1 H2 fuel fuel lastresult lastmark st Hf (le_n _)).
+  intros L key mark body H1 H2 H3 fuel lastresult lastmark st Hfirst Hf.
+  apply (grow_terminates L key mark body H1 H2 H3 fuel fuel lastresult lastmark st Hfirst); [|apply le_n].
+  destruct (truthy lastresult); lia.
 Qed.
 Print Assumptions C02_growth_terminates.
 
@@ -85,7 +92,7 @@ Proof.
   apply (C02_growth_loop_computes_the_iteration_limit ex_key 0 ex_body ex_r (fun k => k) 2).
   - intros k st Hk Hs Hp. unfold seeded in Hs. unfold ex_body. rewrite Hs.
     assert (E : Nat.ltb k 2 = true) by (apply Nat.ltb_lt; exact Hk). rewrite E.
-    eexists. repeat split; try reflexivity. lia.
+    eexists. repeat split; try reflexivity. left. lia.
   - intros st Hs Hp. unfold seeded in Hs. unfold ex_body. rewrite Hs. cbn. eexists _, _. split; [reflexivity|left; reflexivity].
   - lia.
   - unfold seeded. reflexivity.
@@ -102,9 +109,9 @@ Definition lr_mod : ir_module :=
      i_meths := [{| m_name := "a"; m_deco := DMemoLeftRec; m_type := "Any"; m_comment := ""; m_nullable := false;
                     m_without_invalid := false; m_locations := false; m_loop := false; m_gather := false;
                     m_alts := [{| a_has_cut := false; a_guard := false; a_conjs := [cj "a" (CMeth "a"); cj "literal" (CExpect "'x'")];
-                                  a_locations := false; a_action := "[a, literal]"; a_names := ["a"; "literal"]; a_explicit := false |};
+                                  a_locations := false; a_action := "[a, literal]"; a_names := ["a"; "literal"]; a_explicit := false; a_unreachable := false |};
                                {| a_has_cut := false; a_guard := false; a_conjs := [cj "literal" (CExpect "'b'")];
-                                  a_locations := false; a_action := "literal"; a_names := ["literal"]; a_explicit := false |}] |}] |}.
+                                  a_locations := false; a_action := "literal"; a_names := ["literal"]; a_explicit := false; a_unreachable := false |}] |}] |}.
 Definition lr_aeval (text : string) (e : env) : option value :=
   if String.eqb text "literal" then env_get e "literal"
   else match env_get e "a", env_get e "literal" with Some x, Some y => Some (VList [x; y]) | _, _ => None end.
